@@ -200,6 +200,8 @@ def _ops():
     op("p_eq", "P", "P")(lambda L, a, k, e: a[0] == a[1])
     op("p_hash", "P")(lambda L, a, k, e: hash(a[0]) == hash(a[0]))
     op("p_props", "P")(lambda L, a, k, e: (a[0].is_ising, a[0].is_constant, a[0].n_qubits, sorted(a[0].qubits), len(a[0])))
+    op("p_qubits", "P")(lambda L, a, k, e: a[0].qubits)
+    op("p_operations", "P")(lambda L, a, k, e: a[0].operations if hasattr(a[0], "operations") else [t.operations for t in a[0].terms])
     op("p_circuits", "P")(lambda L, a, k, e: a[0].circuits if hasattr(a[0], "circuits") else a[0].circuit)
     op("p_copy", "P")(lambda L, a, k, e: a[0].copy() if hasattr(a[0], "copy") else L["PauliSum"](list(a[0].terms)))
     op("p_terms", "P")(lambda L, a, k, e: list(a[0].terms))
@@ -740,6 +742,9 @@ class World:
                 done = True
             elif isinstance(r2, list):
                 r2.append(None)
+                done = True
+            elif isinstance(r2, set):
+                r2.add(("client", 99)) if r2 and isinstance(next(iter(r2)), tuple) else r2.add(99)
                 done = True
             elif isinstance(r2, dict):
                 r2["__client_key__"] = 1
